@@ -40,7 +40,7 @@ add('C10', 'l1', 'Metamorphic: repeated loads + in-process code generation (same
     'Trusted: the three printers in ser.rs. Integers above i64::MAX are excluded (json5 has no u64).',
     technique='metamorphic property-based testing (permutation / re-run / differential across file formats)')
 add('C11', 'l1', 'Generated projects with escape-heavy literals; every Literal index is checked against its table, each table against the AST literal set, nested string counts against their top locale, and the files written by TranslationsInfos::write_to_dir are read back with serde_json.',
-    L1_NOTE + 'the dynamic_load run-time reader is observed by the generated-crate tier.')
+    L1_NOTE + 'stage 2 builds generated packages with dynamic_load + ssr: text is read at run time through the tables, and __i18n_request_translations__ is compared with the AST literal set; the wasm client side is not observed.')
 add('C12', 'l0a', 'Exhaustive enumeration of supported sets (size 1-3 quick, 1-4 thorough) x request lists (length 0-3) over a 12-tag universe plus junk entries, anchored by declare_locales! enums, plus random BCP-47 sets; Locale::find_locale / find_matchs are checked against a validity predicate (first request that has any match wins; exact before less specific; unparseable = absent).',
     'Trusted: the harness DynLocale implementation of the public Locale trait (cross-checked against three declare_locales! enums), icu_locid parsing.',
     technique='exhaustive enumeration of small finite domains + property-based testing with a validity-predicate oracle')
